@@ -540,3 +540,113 @@ pub fn history(seed: u64, idx: u64) -> Case {
         desc: Json::obj().with("engine", "c16").with("seed", seed).with("index", idx).with("config", config_desc).with("log", log.iter().map(|s| Json::from(s.as_str())).collect::<Vec<_>>()),
     }
 }
+
+/// The statement cache of one client against a second OS thread that keeps clearing it (a `clear()` through the
+/// registry or on the cache itself is allowed from anywhere). At rest `size()` must again be the number of keys
+/// that are really cached - decided by preparing every statement once more and looking at the server's log:
+/// a statement that is cached causes no `Parse`.
+pub fn cache_race(seed: u64, idx: u64) -> Case {
+    let mut rng = Rng::derive(seed, 0xC16A, idx);
+    let rounds = rng.range(50, 400) as usize;
+    let via_registry = rng.chance(1, 2);
+    let config_desc = format!("cache race: rounds={} clear_via_registry={}", rounds, via_registry);
+    let rt = tokio::runtime::Builder::new_current_thread().enable_all().build().expect("rt");
+    let mut viol: Vec<Violation> = Vec::new();
+    let mut log: Vec<String> = vec![config_desc.clone()];
+    let mut counters: BTreeMap<String, u64> = BTreeMap::new();
+    rt.block_on(async {
+        let server = Arc::new(ServerState::default());
+        let finished: Arc<Mutex<HashMap<usize, Arc<AtomicBool>>>> = Arc::new(Mutex::new(HashMap::new()));
+        let mut pgc = tokio_postgres::Config::new();
+        let _ = pgc.user("u").dbname("d");
+        let mgr = Manager::from_connect(pgc, VConnect { server: server.clone(), finished: finished.clone(), linger: false }, ManagerConfig { recycling_method: RecyclingMethod::Fast });
+        let pool: Pool = Pool::builder(mgr).max_size(1).build().expect("build");
+        let client = match tokio::time::timeout(Duration::from_secs(10), pool.get()).await {
+            Ok(Ok(c)) => c,
+            _ => {
+                viol.push(Violation { prop: "C16", oracle: "harness", msg: "no client".into() });
+                return;
+            }
+        };
+        let cat: Vec<(String, Vec<Type>)> = catalogue().into_iter().filter(|(q, _)| !q.contains("syntax_error")).collect();
+        let stop = Arc::new(AtomicBool::new(false));
+        let clears = Arc::new(std::sync::atomic::AtomicU64::new(0));
+        let clearer = {
+            let (stop, clears) = (stop.clone(), clears.clone());
+            let cache = client.statement_cache.clone();
+            let p2 = pool.clone();
+            std::thread::spawn(move || {
+                while !stop.load(Ordering::Relaxed) {
+                    if via_registry {
+                        p2.manager().statement_caches.clear();
+                    } else {
+                        cache.clear();
+                    }
+                    let _ = clears.fetch_add(1, Ordering::Relaxed);
+                    for _ in 0..50 {
+                        std::hint::spin_loop();
+                    }
+                }
+            })
+        };
+        for r in 0..rounds {
+            let (q, types) = &cat[r % cat.len()];
+            match tokio::time::timeout(Duration::from_secs(10), client.prepare_typed_cached(q, types)).await {
+                Ok(Ok(_)) => {}
+                Ok(Err(e)) => {
+                    viol.push(Violation { prop: "C16", oracle: "prepare_failed", msg: format!("prepare of {:?} failed while the cache was being cleared: {}", q, e) });
+                    break;
+                }
+                Err(_) => {
+                    viol.push(Violation { prop: "C16", oracle: "harness", msg: "prepare hangs".into() });
+                    break;
+                }
+            }
+        }
+        stop.store(true, Ordering::SeqCst);
+        let _ = clearer.join();
+        let _ = counters.insert("race_clears".into(), clears.load(Ordering::Relaxed));
+        let _ = counters.insert("race_prepares".into(), rounds as u64);
+        if viol.is_empty() {
+            // at rest: size() against the keys that are really there
+            let size0 = client.statement_cache.size();
+            let st = server.conn(0);
+            let parses = |st: &Arc<Mutex<crate::server::ConnState>>| st.lock().unwrap().log.iter().filter(|(_, f)| matches!(f, Front::Parse { .. })).count();
+            let mut hits = 0usize;
+            for (q, types) in &cat {
+                let before = parses(&st);
+                match tokio::time::timeout(Duration::from_secs(10), client.prepare_typed_cached(q, types)).await {
+                    Ok(Ok(_)) => {
+                        if parses(&st) == before {
+                            hits += 1;
+                        }
+                    }
+                    other => {
+                        viol.push(Violation { prop: "C16", oracle: "prepare_failed", msg: format!("probe prepare of {:?}: {:?}", q, other.map(|r| r.map(|_| ()).map_err(|e| e.to_string()))) });
+                        break;
+                    }
+                }
+            }
+            log.push(format!("{} clears raced {} prepares; at rest size() = {}, {} keys were cached", clears.load(Ordering::Relaxed), rounds, size0, hits));
+            if viol.is_empty() && size0 != hits {
+                viol.push(Violation { prop: "C16", oracle: "cache_size", msg: format!("after clear() raced with prepares: statement_cache.size() = {} but {} statements were cached (no Parse when prepared again)", size0, hits) });
+            }
+            let size1 = client.statement_cache.size();
+            if viol.is_empty() && size1 != cat.len() {
+                viol.push(Violation { prop: "C16", oracle: "cache_size", msg: format!("all {} statements of the catalogue are cached now but size() = {}", cat.len(), size1) });
+            }
+        }
+        drop(client);
+        drop(pool);
+    });
+    let mut h = Hasher::default();
+    h.str(&config_desc);
+    Case {
+        violations: viol,
+        hash: h.0,
+        nontrivial: true,
+        events: counters.values().sum(),
+        counters,
+        desc: Json::obj().with("engine", "c16_cache_race").with("seed", seed).with("index", idx).with("config", config_desc).with("log", log.iter().map(|s| Json::from(s.as_str())).collect::<Vec<_>>()),
+    }
+}
